@@ -165,8 +165,15 @@ func (r *checkRun) execute() int {
 			casesByDir[hr.h.dir] = append(casesByDir[hr.h.dir], vtCase{ID: id, Harness: hr.h.fn.Name(), Inputs: r.withBounds(boundInputs(p.Model))})
 			samples = append(samples, valSample{hr.h, p, id})
 		}
+		perLabel := map[string]int{}
 		for _, p := range hr.hr.Paths {
 			for _, v := range p.Violations {
+				// at most 4 counterexamples per (harness, label, known-finding) are replayed natively
+				lk := v.Label + "|" + v.KF
+				perLabel[lk]++
+				if perLabel[lk] > 4 {
+					continue
+				}
 				nextID++
 				id := fmt.Sprintf("v%d", nextID)
 				c := &candidate{h: hr.h, v: v, caseID: id, path: p}
